@@ -210,6 +210,18 @@ func (r *Run) Fail(sig, caseID string, detail any) {
 	}
 }
 
+// FailMore adds n further failing cases of an already reported signature (details not kept).
+func (r *Run) FailMore(sig, firstID string, n int64) {
+	r.mu.Lock()
+	defer r.mu.Unlock()
+	if _, ok := r.known[sig]; ok {
+		r.knownHits[sig] += n
+		return
+	}
+	r.violCount += n
+	r.violSigs[sig] += n
+}
+
 func sanitize(s string) string {
 	var b strings.Builder
 	for _, c := range s {
